@@ -28,6 +28,10 @@ type Extractor struct {
 	BenignWriteTags map[string]bool
 	caseBudget      int
 	inSign          bool
+	signActive      bool
+	signSteps       int
+	signLimit       int
+	signCache       map[string]Tri
 	phiOf           map[AtomID]*ssa.Phi
 	phiFC           map[AtomID]*FC
 	memphiOf        map[AtomID]memphiInfo
@@ -37,7 +41,7 @@ type Extractor struct {
 
 func NewExtractor(w *World, eff *Effects) *Extractor {
 	return &Extractor{W: w, S: NewSym(), Eff: eff, depth: map[*ssa.Function]int{}, NoInline: map[string]bool{},
-		cloFn: map[AtomID]*ssa.MakeClosure{}, cloFC: map[AtomID]*FC{}, BenignWriteTags: map[string]bool{}, phiOf: map[AtomID]*ssa.Phi{}, phiFC: map[AtomID]*FC{}, memphiOf: map[AtomID]memphiInfo{}, fcCache: map[*ssa.Function]*FC{}, MaxInlineBlocks: 14}
+		cloFn: map[AtomID]*ssa.MakeClosure{}, cloFC: map[AtomID]*FC{}, BenignWriteTags: map[string]bool{}, signCache: map[string]Tri{}, phiOf: map[AtomID]*ssa.Phi{}, phiFC: map[AtomID]*FC{}, memphiOf: map[AtomID]memphiInfo{}, fcCache: map[*ssa.Function]*FC{}, MaxInlineBlocks: 14}
 }
 
 // Assumption: either an equality atom := value, or a condition with a truth value.
@@ -207,7 +211,7 @@ func (x *Extractor) EvalCond(c *RF, assume []Assumption) Tri {
 			if t := x.evalByRegions(at.Name, d, assume, sub); t != Unknown {
 				return t
 			}
-			return x.evalBySign(at.Name, d, assume)
+			return x.evalBySignCached(at, d, assume)
 		}
 		sg := cst.Sign()
 		var res bool
@@ -1771,9 +1775,13 @@ func (x *Extractor) evalBySign(name string, d *RF, assume []Assumption) Tri {
 		}
 		g.addFact(c)
 	}
-	if len(g.facts) == 0 {
+	if len(g.facts) == 0 || len(g.facts) > 12 {
 		return Unknown
 	}
+	// a small budget: this is a fallback tried for every comparison met
+	x.signActive = true
+	x.signSteps, x.signLimit = 0, 250
+	defer func() { x.signActive = false }()
 	pos, neg := g.Pos(d), g.Pos(d.Neg()) // l>r, l<r
 	switch name {
 	case "cmp<":
@@ -1837,4 +1845,30 @@ func expandAssumptions(assume []Assumption) []Assumption {
 		}
 	}
 	return out
+}
+
+// evalBySignCached memoises evalBySign per (comparison atom, assumption set).
+func (x *Extractor) evalBySignCached(at *Atom, d *RF, assume []Assumption) Tri {
+	if len(assume) == 0 || x.inSign || x.signActive {
+		return Unknown
+	}
+	var sb strings.Builder
+	fmt.Fprintf(&sb, "%d|", at.ID)
+	for _, a := range assume {
+		if a.Cond == nil {
+			continue
+		}
+		if ca := a.Cond.SingleAtom(); ca != nil {
+			fmt.Fprintf(&sb, "%d:%v,", ca.ID, a.True)
+		} else {
+			sb.WriteString(a.Cond.String())
+		}
+	}
+	key := sb.String()
+	if t, ok := x.signCache[key]; ok {
+		return t
+	}
+	t := x.evalBySign(at.Name, d, assume)
+	x.signCache[key] = t
+	return t
 }
